@@ -242,6 +242,16 @@ def step (st : St) (line : String) : St × String :=
       else if m.locked then (st, "err=locked")
       else ({ st with mgr := some m.lock }, "ok")
     | none => (st, "bad-op")
+  | "mgrchpass" :: r =>
+    match st.mgr, st.disk, natKV r "priv", hexKV r "old", hexKV r "new" with
+    | some m, some d, some pv, some old, some new =>
+      if pv > 1 then (st, "bad-op") else
+      let n := st.nonce
+      let rnd : ChangeRand := { salt := leBytes 32 (5000 + n), n1 := Toy.nonceOfId n, n2 := Toy.nonceOfId (n + 1) }
+      match m.changePassphrase A K d rnd old new (pv == 1) 16 8 1 with
+      | (m', d', .ok ()) => ({ st with mgr := some m', disk := some d', nonce := n + 2 }, "ok")
+      | (_, _, .error e) => (st, showMgrErr e)
+    | _, _, _, _, _ => (st, "bad-op")
   | "mgrenc" :: r =>
     match st.mgr, natKV r "kt", natKV r "len", natKV r "pat" with
     | some m, some kt, some len, some pat =>
